@@ -25,7 +25,9 @@
                                        corrupt (ours by its header, allocation table garbage)
      ptr    shm pointer keys:          none | garbage (offset/length not integers, length missing) |
                                        range (outside the segment / not a live allocation) | ok |
-                                       wrongrows (a live allocation holding a batch of 0 or 2 rows)
+                                       wrongrows (a live allocation holding a batch of 0 or 2 rows) |
+                                       mismatch (a live allocation whose bytes are not a batch of the pointer
+                                       batch's schema: another shape, or arrays that are internally inconsistent)
      loc    vgi_rpc.location:          absent | garbage
      cols   columns vs. the method's declared parameters:  match | renamed | extra | missing | retyped |
                                        badvalue (declared schema, but the value cannot be turned into the
@@ -56,7 +58,7 @@ MethS  == {"absent", "nonutf8", "unknown", "unary", "unary_big", "stream_hdr", "
 RvS    == {"absent", "wrong", "ok"}
 PvS    == {"absent", "wrong", "ok"}
 SegS   == {"none", "name_only", "bad_size", "nonexistent", "foreign", "good", "tiny", "corrupt"}
-PtrS   == {"none", "garbage", "range", "ok", "wrongrows"}
+PtrS   == {"none", "garbage", "range", "ok", "wrongrows", "mismatch"}
 SegUnusable == {"nonexistent", "foreign", "bad_size"}       \* advertised, but attaching fails (or is not attempted)
 SegOurs     == {"good", "tiny", "corrupt"}                  \* attaching succeeds
 LocS   == {"absent", "garbage"}
@@ -128,7 +130,7 @@ Stage(c, w) ==
   ELSE IF c.m = "nonutf8" THEN "methodutf8"
   ELSE IF IsLoc(c, w) THEN "location"                                   \* pointer to an unfetchable location
   ELSE IF IsPtr(c) /\ c.seg \in SegUnusable THEN "ptrattach"
-  ELSE IF IsPtr(c) /\ c.seg \in SegOurs /\ c.ptr \in {"garbage", "range"} THEN "ptrresolve"
+  ELSE IF IsPtr(c) /\ c.seg \in SegOurs /\ c.ptr \in {"garbage", "range", "mismatch"} THEN "ptrresolve"
   ELSE IF ~NoColumns(c) /\ EffRows(c) # 1 THEN "rows"
   ELSE Late(c, w)
 
@@ -154,6 +156,9 @@ Kinds(c, w) ==
   \* a pointer batch is resolved against the cached segment when this request names none it can attach
   ELSE IF c.hist = "shmcached" /\ IsPtr(c) /\ s \in {"ptrattach", "ptrresolve", "rows"}
        THEN {"error"} \cup KindsOf(Late(c, w), c)
+  \* bytes of another shape may still happen to decode (to values the method accepts, or not): refusing at any later
+  \* step and answering are both admissible -- what is not, is the process dying on them
+  ELSE IF s = "ptrresolve" /\ c.ptr = "mismatch" THEN {"error"} \cup KindsOf(Late(c, w), c)
   \* a pointer batch without columns whose segment cannot be attached has nothing to resolve: refusing it and
   \* ignoring the pointer are both admissible
   ELSE IF s = "ptrattach" /\ NoColumns(c) THEN {"error"} \cup KindsOf(Late(c, w), c)
@@ -191,16 +196,19 @@ FaultFreeSucceeds(c) ==
      \* an ordinary request, inline or through shm, whatever happened on the connection before
      /\ (Faults(c) = 0 \/ (Faults(c) = 1 /\ (c.ptr = "ok" \/ c.hist # "fresh"))))
      => \A w \in Worlds : Kinds(c, w) = {"success"}
+\* the request batch is whatever the bytes of a mismatching region happen to decode to
+UnknownShape(c) == IsPtr(c) /\ c.seg \in SegOurs /\ c.ptr = "mismatch"
 OnlyCleanSucceeds(c) ==
   \A w \in Worlds : ("success" \in Kinds(c, w)) =>
       /\ Known(c) \/ c.m = "topts"
       /\ c.rv = "ok"
-      /\ c.cols = "match" \/ c.m = "topts"
-      /\ EffRows(c) = 1 \/ NoColumns(c) \/ (c.hist = "shmcached" /\ IsPtr(c))
+      /\ c.cols = "match" \/ c.m = "topts" \/ UnknownShape(c)
+      /\ EffRows(c) = 1 \/ NoColumns(c) \/ (c.hist = "shmcached" /\ IsPtr(c)) \/ UnknownShape(c)
       /\ (w.ver /\ c.m \notin {"describe", "topts"}) => c.pv = "ok"
       /\ ~IsLoc(c, w)
 SingleFaultExact(c) ==
-  (c.k = "req" /\ Faults(c) <= 1 /\ c.extra # "trace" /\ c.seg \notin SegUnusable \cup {"corrupt"} /\ ~MaySwallow(c))
+  (c.k = "req" /\ Faults(c) <= 1 /\ c.extra # "trace" /\ c.seg \notin SegUnusable \cup {"corrupt"} /\ ~MaySwallow(c)
+     /\ c.ptr # "mismatch")
      => \A w \in Worlds : Cardinality(Kinds(c, w)) = 1
 OnlyOrphanedInputSwallowed(c) ==          \* a request is left unanswered only in the one situation described above
   \A w \in Worlds : ("swallowed" \in Kinds(c, w)) => (c.hist = "arm" /\ Stage(c, w) = "nomethod")
@@ -213,7 +221,9 @@ WorldOnlyWhereItMatters(c) ==
 \* ------------------------------------------------------------------ judging what the real code did
 (* observation o:
      world      "ve" | "Ve" | "vE" | "VE"          transport  "pipe" | "unix" | "tcp" | "shmpipe" (ShmPipeTransport:
-                                                              a static segment on the server side)
+                                                              a static segment on the server side) | "subprocess"
+                                                              (serve_stdio in a child process: died = the process
+                                                              exited abnormally or was killed by a signal)
      valid      (bytes cases) the damaged bytes are still one complete, valid, single-batch IPC stream
      first      "ok"            first reply stream complete, no error batch
                 "typed_error"   complete, carries an EXCEPTION batch with an exception type and a message
